@@ -17,6 +17,8 @@ Requests (model = `Model.CEval` on `Model.CSyntax.render e`, spec = `Spec.CInt`)
   linit <ty> e                                        the pre-fix pipeline (`Model.CEvalLegacy`)
   mtype e | stype e                                   type given by ppci's semantics / by C
   pack <ty> <int> | lpack <ty> <int>                  `CContext.pack` (fixed / pre-fix) on a raw value
+  epack <int> | ppack <int>                           `CContext.pack` on an enum type / a pointer type
+  einit e | pinit e | seinit e | spinit e             `enum E x = e;` / `T *p = (T *)e;` (model / spec)
   wrap <ty> <int> | conv <ty> <int>                   `to_integer_type` / `Spec.CInt.convert`
 -/
 namespace Model.CDriver
@@ -118,6 +120,24 @@ def step (line : String) : String :=
   | "sinit" :: t :: ws => match specTy? t, parseAll ws with
       | some τ, some e => showOptBytes (Spec.CInt.initBytes τ e)
       | _, _ => "bad-op"
+  | "einit" :: ws => match parseAll ws with
+      | some e => showBytes (Model.CEval.initializerEnum (render e))
+      | _ => "bad-op"
+  | "seinit" :: ws => match parseAll ws with
+      | some e => showOptBytes (Spec.CInt.initBytesEnum e)
+      | _ => "bad-op"
+  | "pinit" :: ws => match parseAll ws with
+      | some e => showBytes (Model.CEval.initializerPtr (render e))
+      | _ => "bad-op"
+  | "spinit" :: ws => match parseAll ws with
+      | some e => showOptBytes (Spec.CInt.initBytesPtr e)
+      | _ => "bad-op"
+  | ["epack", v] => match int? v with
+      | some z => showBytes (Model.CEval.packAny .enum z)
+      | _ => "bad-op"
+  | ["ppack", v] => match int? v with
+      | some z => showBytes (Model.CEval.packAny .ptr z)
+      | _ => "bad-op"
   | "case" :: t :: ws => match specTy? t, parseAll ws with
       | some τ, some e => showInt (Model.CEval.caseLabel (ofSpecTy τ) (render e))
       | _, _ => "bad-op"
